@@ -1,7 +1,6 @@
-(* C10 — an actuator has at most one live provider (sequential histories; the schedule part is in
-   Properties/C10s.v once the concurrent model covers it).  Theorems only. *)
+(* C10 — an actuator has at most one live provider.  Theorems only. *)
 From Coq Require Import ZArith Bool List.
-From KD Require Import Model.Values Model.Validate Model.Perm Model.Glob Model.Broker Model.BrokerRun Proofs.Broker.
+From KD Require Import Model.Values Model.Validate Model.Perm Model.Glob Model.Broker Model.BrokerRun Proofs.Broker Proofs.Interleave.
 Open Scope Z_scope.
 
 Theorem c10_exclusive_seq : forall h, claims_disjoint (st_asubs (run_history h)).
@@ -25,3 +24,13 @@ Theorem c10_release_on_loss : forall now a,
   as_registered (cleanup_asub now a) = false.
 Proof. exact cleanup_releases_lost_claim. Qed.
 Print Assumptions c10_release_on_loss.
+
+(* whatever the timing: every interleaving (at critical-section granularity) of any number of
+   claims, actuations, provider losses, housekeeping runs and shutdown keeps live claims disjoint.
+   provide_actuation's scan and push are ONE write section (checked against the recorded lock
+   trace on every run); a writer is alone (c11_mutual_exclusion). *)
+Theorem c10_exclusive_all_schedules : forall (ops : list conc_action) st0 ts st,
+  claims_disjoint (st_asubs st0) ->
+  ireach state (map sections ops, st0) (ts, st) -> claims_disjoint (st_asubs st).
+Proof. exact claims_disjoint_all_schedules. Qed.
+Print Assumptions c10_exclusive_all_schedules.
